@@ -257,6 +257,16 @@ def repo_macro_fingerprint():
     return h.hexdigest()[:16]
 
 
+class CorpusBuildError(Exception):
+    def __init__(self, what, stderr):
+        Exception.__init__(self, what + ":\n" + stderr[-3000:])
+        self.what, self.stderr = what, stderr
+
+    def first_error(self):
+        m = re.search(r"(?m)^error.*(?:\n.*){0,6}", self.stderr)
+        return (m.group(0) if m else self.stderr[-400:])[:600]
+
+
 class Corpus:
     """a set of programs materialised as a crate under .cache/corpus-<tag>"""
 
@@ -265,6 +275,7 @@ class Corpus:
         self.dir = os.path.join(CACHE, "corpus-" + tag)
         self.target = os.path.join(CACHE, "corpus-target")
         self.stats = {}
+        self.dropped = {}
         self.hooks = hooks
         self.need_native = need_native
 
@@ -280,6 +291,42 @@ class Corpus:
                 fcntl.flock(lk, fcntl.LOCK_UN)
 
     def _build(self):
+        """build; if some program no longer compiles (a well-formed program of the corpus that compiled on the
+        unchanged tree), drop it, remember why, and build the rest so that the other programs are still decided"""
+        self.dropped = {}
+        for attempt in range(4):
+            try:
+                return self._build_once()
+            except CorpusBuildError as e:
+                bad = self._modules_of_errors(e.stderr)
+                bad = [b for b in bad if b not in self.dropped]
+                if not bad or attempt == 3:
+                    raise RuntimeError(str(e))
+                for b in bad:
+                    self.dropped[b] = e.first_error()
+                self.progs = [p for p in self.progs if p.name not in self.dropped]
+                if not self.progs:
+                    raise RuntimeError(str(e))
+
+    def _modules_of_errors(self, stderr):
+        lib = open(os.path.join(self.dir, "src", "lib.rs")).read().splitlines()
+        starts = []
+        for i, ln in enumerate(lib):
+            m = re.match(r"^pub mod (\w+) \{", ln)
+            if m:
+                starts.append((i + 1, m.group(1)))
+        bad = []
+        for m in re.finditer(r"--> src/lib\.rs:(\d+):", stderr):
+            line = int(m.group(1))
+            name = None
+            for st, nm in starts:
+                if st <= line:
+                    name = nm
+            if name and name != "vals" and name not in bad:
+                bad.append(name)
+        return bad
+
+    def _build_once(self):
         os.makedirs(os.path.join(self.dir, "src"), exist_ok=True)
         lib = crate_text(self.progs)
         key = hashlib.sha256((lib + repo_macro_fingerprint() + VALS_RS + MAIN_RS).encode()).hexdigest()[:16]
@@ -311,7 +358,7 @@ class Corpus:
         rc, out, err, t = sh(["cargo", "+nightly", "rustc", "--offline", "--lib", "--target-dir", self.target + "-nightly", "--",
                               "-Zunpretty=expanded"], self.dir, env=rf)
         if rc != 0:
-            raise RuntimeError("corpus expansion failed:\n" + err[-4000:])
+            raise CorpusBuildError("corpus expansion failed", err)
         exp = os.path.join(self.dir, "expanded.rs")
         with open(exp, "w") as f:
             f.write(out)
@@ -324,7 +371,7 @@ class Corpus:
         if self.need_native:
             rc, out3, err3, t3 = sh(["cargo", "build", "--offline", "--bin", "corpus-run", "--target-dir", self.target], self.dir, env=rf)
             if rc != 0:
-                raise RuntimeError("corpus native build failed:\n" + err3[-4000:])
+                raise CorpusBuildError("corpus native build failed", err3)
             shutil.copy(os.path.join(self.target, "debug", "corpus-run"), self.bin)
             self.stats["native_build_s"] = round(t3, 1)
         with open(stamp, "w") as f:
